@@ -6,7 +6,7 @@ from __future__ import print_function
 import os.path
 from os import listdir
 import re
-from glob import glob
+from glob import glob, escape
 
 import numpy as np
 from scipy.linalg import inv, solve_triangular, svd, pascal, invpascal
@@ -825,6 +825,6 @@ def basis_dir_cleanup(basis_dir=''):
     if basis_dir is None:
         return
 
-    files = glob(os.path.join(basis_dir, 'rbasex_basis_*.npy'))
+    files = glob(os.path.join(escape(basis_dir), 'rbasex_basis_*.npy'))
     for fname in files:
         os.remove(fname)
